@@ -257,6 +257,27 @@ Section Chunk.
     pose proof (page_bytes_nonempty p) as P. unfold len in P. fold (chunk_bytes ps). lia.
   Qed.
 
+  (** from the invariant: the finished chunk reads back as all rows the column writer has seen *)
+  Theorem chunk_roundtrip_inv c w ps0 rss0 pend0 : column_ok c = true -> CInv c w ps0 rss0 pend0 ->
+    let f := cw_finalize compress header w in
+    w_total_values f < 2 ^ 31 -> w_total_uncompressed f < 2 ^ 31 ->
+    p_col (w_page f) = c /\
+    w_total_values f = len (concat rss0 ++ pend0) /\
+    forall pre post fuel, (length (w_buf f) <= fuel)%nat ->
+      read_chunk fuel c (pre ++ w_buf f ++ post) (len pre) (w_total_values f) = Ok (concat rss0 ++ pend0).
+  Proof.
+    intros Hc I0 f Bv Bu.
+    destruct (cw_finalize_inv c w ps0 rss0 pend0 I0) as (ps & rss & I & R). fold f in I.
+    pose proof (good_pages c f ps rss [] I Bv Bu) as G.
+    assert (Ev : w_total_values f = len (concat rss0 ++ pend0)).
+    { rewrite (ci_values _ _ _ _ _ I), R. cbn [len length N.of_nat]. lia. }
+    split; [exact (pi_col _ _ _ (ci_page _ _ _ _ _ I))|].
+    split; [exact Ev|]. intros pre post fuel Hf.
+    rewrite Ev, <- R, (ci_buf _ _ _ _ _ I).
+    apply read_chunk_pages; [exact Hc|exact G|].
+    rewrite (ci_buf _ _ _ _ _ I) in Hf. pose proof (chunk_bytes_len ps). lia.
+  Qed.
+
   (** C01, chunk layer: whatever the partition of the column's rows into write_batch calls and whatever the
       target page size, reading the finished chunk page after page returns exactly the rows written *)
   Theorem chunk_roundtrip c page_size bs w : column_ok c = true -> forallb (batch_ok c) bs = true ->
@@ -270,15 +291,7 @@ Section Chunk.
     intros Hc Hb E f Bv Bu.
     destruct (cw_write_all_inv c bs _ [] [] [] (cinv_init c page_size) Hb) as (w1 & ps1 & rss1 & pend1 & E1 & I1 & R1).
     rewrite E in E1. inversion E1; subst w1. cbn [concat app] in R1.
-    destruct (cw_finalize_inv c w ps1 rss1 pend1 I1) as (ps & rss & I & R). fold f in I.
-    pose proof (good_pages c f ps rss [] I Bv Bu) as G.
-    assert (Rows : concat rss = rows_of c bs) by (rewrite R, R1; reflexivity).
-    assert (Ev : w_total_values f = len (rows_of c bs)).
-    { rewrite (ci_values _ _ _ _ _ I), Rows. cbn [len length N.of_nat]. lia. }
-    split; [exact Ev|]. intros pre post fuel Hf.
-    rewrite Ev, <- Rows, (ci_buf _ _ _ _ _ I).
-    apply read_chunk_pages; [exact Hc|exact G|].
-    rewrite (ci_buf _ _ _ _ _ I) in Hf.
-    pose proof (chunk_bytes_len ps). lia.
+    destruct (chunk_roundtrip_inv c w ps1 rss1 pend1 Hc I1 Bv Bu) as (_ & Ev & Rd).
+    rewrite R1 in Ev, Rd. split; [exact Ev|exact Rd].
   Qed.
 End Chunk.
